@@ -51,6 +51,21 @@ def _order_terms(e, pol=1, rank=0, out=None):
             _order_terms(e.a[1], pol, rank + 1 + len(out), out)
             return out
         if last in ("cmp", "partial_cmp"):
+            ta_, tb_ = e.a[0].strip(), e.a[1].strip()
+            if ta_.k == "agg" and tb_.k == "agg" and ta_.x.get("ak") == "tuple" and tb_.x.get("ak") == "tuple" and len(ta_.a) == len(tb_.a) >= 1:
+                # tuples compare lexicographically: component i is the i-th criterion
+                okt = True
+                terms = []
+                for i, (x, y) in enumerate(zip(ta_.a, tb_.a)):
+                    wa, ta = _side(x)
+                    wb, tb = _side(y)
+                    if ta == tb and ta is not None and {wa, wb} == {"self", "other"}:
+                        terms.append((rank + i, ta, pol if wa == "self" else -pol))
+                    else:
+                        okt = False
+                if okt:
+                    out.extend(terms)
+                    return out
             wa, ta = _side(e.a[0])
             wb, tb = _side(e.a[1])
             if ta == tb and {wa, wb} == {"self", "other"}:
@@ -69,10 +84,16 @@ def r1_heap_order(ck, F, R="C06-R1"):
     ck.ob(R, "key-reversed", len(shape) >= 1 and shape[0] == ("key", -1), "the key comparison is reversed exactly once (max-heap pops the smallest key)", b)
     ck.ob(R, "index-reversed", len(shape) >= 2 and shape[1] == ("index", -1), "the source-index tie-break is reversed exactly once (among equal keys the earliest source pops first)", b)
     # the compared values are the key parts (field 0) of each cursor's current entry
-    keycmp = [x for x in e.walk() if x.k == "call" and x.x["path"].rsplit("::", 1)[-1] in ("cmp", "partial_cmp") and _side(x.a[0])[1] == "key"]
-    okp = len(keycmp) == 1
+    def _first(z):
+        z = z.strip()
+        return z.a[0] if (z.k == "agg" and z.x.get("ak") == "tuple" and z.a) else z     # the first component of a compared tuple
+    keycmp = [x for x in e.walk() if x.k == "call" and x.x["path"].rsplit("::", 1)[-1] in ("cmp", "partial_cmp") and len(x.a) == 2 and _side(_first(x.a[0]))[1] == "key"]
+    sides = None
+    if len(keycmp) == 1:
+        sides = [_first(z) for z in keycmp[0].a]
+    okp = sides is not None
     if okp:
-        for side in keycmp[0].a:
+        for side in sides:
             side = side.strip()
             somes = [y for y in flat_alts(side) if y.k == "agg" and y.x.get("variant") == "Some"]
             nones = [y for y in flat_alts(side) if y.k == "agg" and y.x.get("variant") == "None"]
